@@ -9,11 +9,13 @@ for d in seeded/C*/; do
   n=$(basename $d)
   if [ -n "$sel" ]; then ok=0; for s in $sel; do case $n in $s*) ok=1;; esac; done; [ $ok = 1 ] || continue; fi
   p=$(python3 -c "import json;print(json.load(open('$d/meta.json'))['breaks_property'])")
+  rep=$(python3 -c "import json;print(json.load(open('$d/meta.json')).get('reported', True))")
   git -C /repo diff --quiet || { echo "/repo has local changes" >&2; exit 3; }
   git -C /repo apply $PWD/$d/patch.diff || { echo "| $n | $p | patch does not apply |" >> $out; continue; }
   ./check $p quick > work/seed_run.log 2>&1; rc=$?
   git -C /repo checkout -- .
   nv=$(grep -c '^VIOLATION' work/seed_run.log)
+  [ "$rep" = "False" ] && n="$n (outside the model: expected silent)"
   echo "| $n | $p | rc=$rc | $nv | $(grep -E "^$p quick:" work/seed_run.log | sed 's/.*transitions, //') |" >> $out
   echo "$n $p rc=$rc violations=$nv"
 done
